@@ -19,7 +19,7 @@ def run(tier, lab):
     lib.tlc_must_pass(r, "ConnLife strict (ReleasedWhenQuiescent, ReturnsAfterPeerGone and SilentPeersExpire under fairness)")
     ck.add_tlc(r, "ConnLife: 2 connections, all interleavings incl. idle expiry, safety + liveness")
     for dev, want in (("helper_never_exits", "ReleasedWhenQuiescent"), ("listener_never_closed", "ReleasedWhenQuiescent"), ("never_eof", None),
-                      ("peek_without_deadline", "SilentPeersExpire")):
+                      ("peek_without_deadline", "SilentPeersExpire"), ("transfer_without_deadline", "SilentPeersExpire"), ("editor_spins", None)):
         rd = lib.tlc("MC_ConnLife", timeout=300, constants={"Devs": '{"%s"}' % dev}, want_scn=False)
         if rd.violated is None or (want and rd.violated != want):
             raise lib.Infra("deviation %s does not violate the expected ConnLife property (got %s)" % (dev, rd.violated))
